@@ -2,6 +2,21 @@
 # budget_s is only a ceiling that turns a stuck run into "inconclusive".
 SIM = dict(pkg="sim", gomaxprocs=1)
 CHECKS = {
+    "C01": dict(SIM, test="TestC01", level="exploration",
+                quick=dict(cases=3000, shards=1, budget_s=600),
+                thorough=dict(cases=30000, shards=16, budget_s=3600)),
+    "C05": dict(SIM, test="TestC05", level="exploration",
+                quick=dict(cases=2000, shards=1, budget_s=600),
+                thorough=dict(cases=20000, shards=16, budget_s=3600)),
+    "C08": dict(SIM, test="TestC08", level="exploration",
+                quick=dict(cases=3000, shards=1, budget_s=600),
+                thorough=dict(cases=30000, shards=16, budget_s=3600)),
+    "C18": dict(SIM, test="TestC18", level="exploration",
+                quick=dict(cases=3000, shards=1, budget_s=600),
+                thorough=dict(cases=30000, shards=16, budget_s=3600)),
+    "C19": dict(SIM, test="TestC19", level="exploration",
+                quick=dict(cases=3000, shards=1, budget_s=600),
+                thorough=dict(cases=30000, shards=16, budget_s=3600)),
     "C02": dict(SIM, test="TestC02", level="exploration",
                 quick=dict(cases=4000, shards=1, budget_s=600),
                 thorough=dict(cases=40000, shards=16, budget_s=3600)),
